@@ -11,7 +11,7 @@ PROFILES = {
              nrand=(600, 6000)),
  "C08": dict(universes=["U_C08", "U_C01_Root"], invs=["Inv_Machine", "Inv_C04_Exact", "Inv_C12_Shape"],
              owned=CONF_U | CONF_P, rand="control", c01=False, bonus=1, nrand=(600, 6000)),
- "C10": dict(universes=["U_C10", "U_LongAligned"], invs=["Inv_Machine", "Inv_C10_Same", "Inv_C10_Least", "Inv_C01_Fill"],
+ "C10": dict(universes=["U_C10", "U_LongC10"], invs=["Inv_Machine", "Inv_C10_Same", "Inv_C10_Least", "Inv_C01_Fill"],
              owned={"conf_evs", "conf_pevs", "conf_end", "conf_writes", "conf_out", "conf_outcome", "conf_pack_outcome",
                     "C10_Same", "C10_Least", "C01_Fill"},
              rand="position", c01=True, bonus=1, nrand=(600, 6000),
